@@ -7,7 +7,7 @@ EXTENDS TensorIndex, Json, IOUtils
 Events == ndJsonDeserialize(IOEnv.TRACE_FILE)
 
 VARIABLE i
-InDomain(c) == c.shape \in (Shapes \cup HighShapes) /\ ValidCfg(c)
+InDomain(c) == c.shape \in (Shapes \cup HighShapes \cup EmptyShapes) /\ ValidCfg(c)
 
 Verdict(e) ==
     IF ~InDomain(e.cfg) THEN "InDomain"
